@@ -99,9 +99,19 @@ class RefWorld:
         J, I = self.cell(X, Y)
         return self.dx[J, I], self.dy[J, I]
 
-    def vertical(self, X, Y, Z):
-        """level pair (klo, khi) and weight a of klo for every particle: value = a*F[klo] + (1-a)*F[khi]"""
-        J, I = self.cell(X, Y)
+    def tie_cells(self, x: float, y: float) -> list[tuple[int, int]]:
+        """the cells (J, I) a position belongs to: one, or two/four when it lies on a cell edge/corner"""
+        def cands(v):
+            if abs(v - np.floor(v) - 0.5) < TIE:
+                return [int(np.floor(v)), int(np.floor(v)) + 1]
+            return [int(np.round(v))]
+        jm, im = self.h.shape
+        return [(j, i) for j in cands(y) for i in cands(x) if 0 <= j < jm and 0 <= i < im]
+
+    def vertical(self, X, Y, Z, cells=None):
+        """level pair (klo, khi) and weight a of klo for every particle: value = a*F[klo] + (1-a)*F[khi];
+        cells = (J, I) overrides the cell whose depth column is used"""
+        J, I = self.cell(X, Y) if cells is None else cells
         n = len(X)
         klo = np.zeros(n, dtype=int)
         khi = np.zeros(n, dtype=int)
